@@ -66,6 +66,16 @@ func genThemedLibJob(r *Rand, k int, allowLoad bool, theme string) LibJob {
 		j.OutFmt = Pick(r, []string{"yaml", "yaml", "json0", "props", "xml"})
 		fs := GenMultiFiles(r.Fork("in"), MultiOpts{MaxFiles: 1, MaxDocs: 3, Format: j.InFmt, PlainOnly: r.Chance(1, 2)})
 		j.Input = Bytes(fs[0].Bytes())
+		if theme == "goccy" {
+			// the library's second YAML decoder, reused over inputs that carry comments in the same places
+			j.InFmt = "goccy"
+			j.OutFmt = "yaml"
+			j.API = Pick(r, []string{"stream", "all", "string"})
+			w := func() string { return Pick(r, wordPool) + strconv.Itoa(r.Range(0, 99)) }
+			j.Input = Bytes(Pick(r, []string{"# head " + w() + "\n", ""}) + "id: " + DocID(r, k, 0) + Pick(r, []string{" # " + w() + "\n", "\n"}) + "a: " + strconv.Itoa(r.Range(0, 9)) + Pick(r, []string{" # " + w() + "\n", " # " + w() + "\n", "\n"}) + "c:\n  x: 1" + Pick(r, []string{" # " + w() + "\n", "\n"}) + "d:\n  - 1\n  - 2\n")
+			j.Expr = Pick(r, []string{".", ".", ".a", ".c", "... comments=\"\"", ".a line_comment", ".id | line_comment", ".c.x | line_comment"})
+			return j
+		}
 		if theme == "pathtypes" {
 			// paths taken from the document: the same spelling with different element types
 			j.InFmt = "yaml"
